@@ -1,17 +1,20 @@
 check("C20", "model_checking",
       "TLC model-checks the driver specification SyltDriver (the `sylt` command as a state machine: parse arguments, compile, then run the chunk / "
-      "write it to stdout / write it to FILE, print every error, exit) over all 6720 configurations (15 sinks incl. absent FILE, existing FILE shorter than / as long as / longer than the output, the root-proof "
+      "write it to stdout / write it to FILE, print every error, exit) over all 9044 configurations (19 sinks incl. absent FILE, existing FILE shorter than / as long as / longer than the output, the root-proof "
       "unwritable ones - missing parent directory, existing directory, /dev/full, full stdout - and writable non-regular ones - /dev/null, /dev/stdout as a pipe, a FIFO "
-      "with a reader, symlinks to a file and to nowhere - x {no --require, M spelled m, m.lua, dir/m.lua, ext.helpers, a.b.c, m.lua.lua} "
+      "with a reader, symlinks to a file and to nowhere -, and `-o -` / run mode with stdout and stderr a pipe, a log opened for appending that already has content, "
+      "a regular file shared with a writer before and a writer after the command (same open file description) x {no --require, M spelled m, m.lua, dir/m.lua, ext.helpers, a.b.c, m.lua.lua} "
       "x --no-std x accepted / rejected with 1, 2, 255, 256, 257, 512 errors / rejected for 2, 3, shared, mixed missing imports (errors without source location) / "
+      "a project whose syntactically broken files import further broken, conflict-marked and missing files 2-4 levels deep / "
       "failing at run time by assert, unreachable, Lua error / a > 8 KiB line with and without an embedded line end x uses-std) with the contract (exit 0 <=> success, every error printed, FILE / stdout / the child's "
-      "chunk complete or untouched in every state) as invariants; then the built `sylt` binary is run once per configuration (quick) / x 3 programs per class x 2 command-line spellings "
+      "chunk complete or untouched in every state, stdout / stderr append-only streams: earlier content, then the command's output as one piece, then later writes) as invariants; then the built `sylt` binary is run once per configuration (quick) / x 3 programs per class x 2 command-line spellings "
       "(thorough) in its own scratch directory with minilua as `lua` on PATH, and every recorded run (exit code, stdout/stderr, FILE before/after, "
       "the chunk given to lua, error blocks, require sites and executed requires) is validated by TLC (Trace_Driver) as a behaviour of that specification, including the "
       "relational clauses against partner records (same bytes on every sink and spelling, exactly one require of M without one trailing .lua in front of the unchanged program, --no-std neutral "
       "for std-free programs). Bounded-exhaustive over the configuration space, not a proof.",
       "Trusted: TLC, the SyltDriver module as the reading of the property, the recorder c20 (raw facts only), minilua as `lua`, and the library API of the current tree "
-      "as the reference for 'the complete program' and 'every error' (differential: never stored outputs, never message texts). The exit status of `-o -` into an unwritable "
+      "as the reference for 'the complete program' and 'every error' (differential: never stored outputs, never message texts); in addition every error planted by a program's "
+      "construction (broken files, missing imports; at least the number the class is written to have) must be printed whatever the library reports. The exit status of `-o -` into an unwritable "
       "stdout is left open for compilable programs (the property fixes it for FILE only; C20_STRICT_STDOUT=1 requires non-zero: sylt exits 0 there today); a panic message naming "
       "the failure counts as the printed error for an unwritable FILE (C20_STRICT_PANIC=1 does not accept it). Not explored: --dump-tree, -v, --help, no file argument, "
       "partially failing writes to a regular file.",
